@@ -43,15 +43,39 @@ def run(ctx: Context) -> None:
     ok = bool(q.args) and norm_text(q.args[0]) == 'self.line' and norm_text(q.func.value) == 'self.convention.strtree'
     ctx.check('R18.1', ok, "the geometry queried is the path itself, on the dataset's convention", seg, q)
     loops = [n for n in walk_no_nested(seg.node) if isinstance(n, ast.For)]
-    outer = [l for l in loops if flow.resolve(l.iter) is q and isinstance(l.target, ast.Name)]
+    def over_hits(it) -> tuple[bool, bool]:
+        """(iterates the query result, in ascending order)"""
+        it = flow.resolve(it)
+        if it is q:
+            return True, False
+        if isinstance(it, ast.Call) and isinstance(it.func, ast.Name) and it.func.id == 'sorted' and len(it.args) == 1 and not it.keywords and flow.resolve(it.args[0]) is q:
+            return True, True
+        if isinstance(it, ast.Call) and callee(ctx, seg, it) == 'numpy.sort' and len(it.args) == 1 and not it.keywords and flow.resolve(it.args[0]) is q:
+            return True, True
+        return False, False
+    outer = [l for l in loops if over_hits(l.iter)[0] and isinstance(l.target, ast.Name)]
     ctx.need('R18.1', len(outer) == 1, "the segments are built in one loop over the hits", seg)
     m.bind['li'] = outer[0].target.id
     ok = m.has('$polygon = self.convention.polygons[$li]', '$index = self.convention.wind_index($li)', within=outer[0])
     ctx.check('R18.1', ok, "polygon and native index are those of the hit's own linear index", seg, outer[0],
               construct='polygon = self.convention.polygons[linear_index]; index = self.convention.wind_index(linear_index)')
-    inner = m.stmt('for $piece in self._intersect_polygon($polygon):\n    ...', within=outer[0])
+    # a stretch of the path along the edge shared by two cells intersects both: each cell is intersected with what the cells
+    # before it have left of the path, so that no stretch is counted twice
+    whole = m.stmt('for $piece in self._intersect_polygon($polygon):\n    ...', within=outer[0])
+    pieces = m.stmt('$pieces = self._intersect_polygon($polygon, $rest)', within=outer[0])
+    inner = whole
+    once = False
+    if whole is None and pieces is not None:
+        inner = m.stmt('for $piece in $pieces:\n    ...', within=outer[0])
+        init = m.stmt('$rest = self.line')
+        cut = m.stmt('$rest = $rest.difference($polygon)', within=outer[0])
+        once = (init is not None and cut is not None and init.lineno < outer[0].lineno and pieces.lineno < cut.lineno
+                and any(cut is st_ for st_ in outer[0].body) and any(pieces is st_ for st_ in outer[0].body) and over_hits(outer[0].iter)[1])
     ctx.check('R18.1', inner is not None, "every line piece of this cell's intersection is visited", seg, inner or outer[0],
-              construct='for intersection in self._intersect_polygon(polygon): ...')
+              construct='for intersection in <pieces of this cell>: ...')
+    ctx.check('R18.1', once, "each cell is intersected with what is left of the path: the remainder starts as the whole path, every visited cell removes its own part after its pieces "
+              "have been taken, unconditionally, and the hits are visited in ascending linear index (a shared edge goes to the lower index, as in point lookup)", seg,
+              pieces or whole or outer[0], construct=f"pieces: {norm_text(pieces or whole) if (pieces or whole) is not None else '?'}; remainder carried and cut: {once}")
     ts = [c for c in calls_in(seg) if (dotted(c.func) or '').endswith('TransectSegment')]
     ctx.need('R18.1', len(ts) == 1, "one TransectSegment is built per piece", seg)
     kw = {k.arg: k.value for k in ts[0].keywords}
@@ -70,6 +94,15 @@ def run(ctx: Context) -> None:
     mi = Matcher(ctx, ip)
     poly_p = ip.params[1]
     inter = mi.stmt(f"$x = {poly_p}.intersection(self.line)") or mi.stmt(f"$x = self.line.intersection({poly_p})")
+    if inter is None and len(ip.params) > 2:
+        # the part of the path to intersect is a parameter that stands for the whole path when it is not given
+        lp_ = ip.params[2]
+        from .common import param_default, is_none
+        dflt = param_default(ip, lp_)
+        fallback = mi.stmt(f"if {lp_} is None:\n    {lp_} = self.line") is not None or \
+            mi.stmt(f"{lp_} = self.line if {lp_} is None else {lp_}") is not None
+        if dflt is not None and is_none(dflt) and fallback:
+            inter = mi.stmt(f"$x = {poly_p}.intersection({lp_})") or mi.stmt(f"$x = {lp_}.intersection({poly_p})")
     # (if/else statements assigning one name are normalised to a conditional expression)
     split = [n for n in walk_no_nested(ip.node) if isinstance(n, ast.Assign) and isinstance(n.value, ast.IfExp)
              and isinstance(n.value.test, ast.Call) and dotted(n.value.test.func) == 'isinstance']
@@ -85,9 +118,14 @@ def run(ctx: Context) -> None:
     ctx.check('R18.1', ok, "multi-part results (GeometryCollection and MultiLineString) are split into their parts; a single geometry is taken as is", ip,
               tests[0] if tests else ip.node, construct=f"multi-part split: {norm_text(tests[0]) if tests else 'absent'}")
     ok = inter is not None and bool(ip.returns()) and all(
-        mi.match('[$g for $g in $geoms if isinstance($g, shapely.LineString)]', ctx.flow(ip).resolve(r.value), commit=False) for r in ip.returns())
-    ctx.check('R18.1', bool(ok), "the pieces are the LineString parts of polygon ∩ path", ip, ip.node,
-              construct='return [g for g in geoms if isinstance(g, shapely.LineString)]')
+        mi.match('[$g for $g in $geoms if isinstance($g, shapely.LineString)]', ctx.flow(ip).resolve(r.value), commit=False)
+        or mi.match('[$g for $g in $geoms if isinstance($g, shapely.LineString) and not $g.is_empty]', ctx.flow(ip).resolve(r.value), commit=False) for r in ip.returns())
+    ctx.check('R18.1', bool(ok), "the pieces are the (non-empty) LineString parts of polygon ∩ path", ip, ip.node,
+              construct='return [g for g in geoms if isinstance(g, shapely.LineString) [and not g.is_empty]]')
+    nonempty = bool(ip.returns()) and all(mi.match('[$g for $g in $geoms if isinstance($g, shapely.LineString) and not $g.is_empty]', ctx.flow(ip).resolve(r.value), commit=False)
+                                          for r in ip.returns())
+    ctx.check('R18.1', nonempty or whole is not None, "when cells are intersected with a remainder of the path, empty results (LINESTRING EMPTY has no end points) are left out", ip, ip.node,
+              construct=f"empty pieces filtered: {nonempty}")
 
     # ---- R18.2
     with ctx.section('R18.2'):
@@ -159,6 +197,9 @@ def run(ctx: Context) -> None:
             and _line(found[1]) < _line(found[3]) and _line(found[4]) < _line(found[5])
         ctx.check('R18.4', order_ok, "those steps happen in a sound order (ravel, read index dimension, move, select)", pa, pa.node,
                   construct=f"step lines {[_line(x) for x in found]}")
+        if found[0] is not None:
+            from .common import on_cells_only
+            on_cells_only(ctx, pa, ctx.flow(pa), found[0].value, 'R18.4', "the transect pairs values with the cells its segments name", conv='self.convention')
         mpc = ctx.func(f"{TR}.make_poly_collection")
         comps = [n for n in ast.walk(mpc.node) if isinstance(n, ast.ListComp) and len(n.generators) == 2]
         ok = False
@@ -212,8 +253,14 @@ from ..variants import V  # noqa: E402
 
 _T = 'src/emsarray/transect.py'
 VARIANTS = [
+    V('C18', 'transect-of-any-grid-kind', _T, "        if grid_kind != self.convention.default_grid_kind:\n            raise ValueError(", "        if grid_kind is None:\n            raise ValueError(", 'R18.4'),
+    V('C18', 'shared-edge-counted-per-cell', _T, "            intersections = self._intersect_polygon(polygon, remaining)\n", "            intersections = self._intersect_polygon(polygon)\n", 'R18.1'),
+    V('C18', 'remainder-never-cut', _T, "            remaining = remaining.difference(polygon)\n", "", 'R18.1'),
+    V('C18', 'remainder-cut-before-intersecting', _T, "            intersections = self._intersect_polygon(polygon, remaining)\n            remaining = remaining.difference(polygon)\n", "            remaining = remaining.difference(polygon)\n            intersections = self._intersect_polygon(polygon, remaining)\n", 'R18.1'),
+    V('C18', 'hits-in-index-order-of-the-tree', _T, "        for linear_index in sorted(intersecting_indexes):", "        for linear_index in intersecting_indexes:", 'R18.1'),
+    V('C18', 'empty-pieces-kept', _T, "            if isinstance(geom, shapely.LineString) and not geom.is_empty]", "            if isinstance(geom, shapely.LineString)]", 'R18.1'),
     V('C18', 'predicate-crosses', _T, "self.convention.strtree.query(self.line, predicate='intersects')", "self.convention.strtree.query(self.line, predicate='crosses')", 'R18.1'),
-    V('C18', 'linear-index-from-enumerate', _T, "        for linear_index in intersecting_indexes:\n            polygon = self.convention.polygons[linear_index]", "        for linear_index, hit in enumerate(intersecting_indexes):\n            polygon = self.convention.polygons[hit]", 'R18.1'),
+    V('C18', 'linear-index-from-enumerate', _T, "        for linear_index in sorted(intersecting_indexes):\n            polygon = self.convention.polygons[linear_index]", "        for linear_index, hit in enumerate(sorted(intersecting_indexes)):\n            polygon = self.convention.polygons[hit]", 'R18.1'),
     V('C18', 'multilinestring-dropped', _T, "isinstance(intersection, (shapely.GeometryCollection, shapely.MultiLineString))", "isinstance(intersection, shapely.GeometryCollection)", 'R18.1'),
     V('C18', 'start-end-unsorted', _T, "                start, end = sorted(projections, key=lambda pair: pair[1])", "                start, end = projections", 'R18.2'),
     V('C18', 'segments-unsorted', _T, "        return sorted(segments, key=lambda i: (i.start_distance, i.end_distance))", "        return segments", 'R18.2'),
@@ -223,6 +270,6 @@ VARIANTS = [
     V('C18', 'vertex-choice-first', _T, "            lp for lp in reversed(self.points)\n            if lp.distance_normalised <= distance_normalised)", "            lp for lp in self.points\n            if lp.distance_normalised <= distance_normalised)", 'R18.5'),
     V('C18', 'polygon-of-other-hit', _T, "            polygon = self.convention.polygons[linear_index]\n            index = self.convention.wind_index(linear_index)", "            polygon = self.convention.polygons[linear_index]\n            index = self.convention.wind_index(int(intersecting_indexes[0]))", 'R18.1'),
     # benign
-    V('C18', 'benign-rename-locals', _T, "        for linear_index in intersecting_indexes:\n            polygon = self.convention.polygons[linear_index]\n            index = self.convention.wind_index(linear_index)\n            for intersection in self._intersect_polygon(polygon):",
-      "        for hit in intersecting_indexes:\n            linear_index = hit\n            polygon = self.convention.polygons[hit]\n            index = self.convention.wind_index(hit)\n            for intersection in self._intersect_polygon(polygon):", None),
+    V('C18', 'benign-rename-locals', _T, "        for linear_index in sorted(intersecting_indexes):\n            polygon = self.convention.polygons[linear_index]\n            index = self.convention.wind_index(linear_index)\n",
+      "        for hit in sorted(intersecting_indexes):\n            linear_index = hit\n            polygon = self.convention.polygons[hit]\n            index = self.convention.wind_index(hit)\n", None),
 ]
